@@ -582,3 +582,31 @@ def allowed(src, stats=None, cap=32):
         if todo:
             first.flags.add('alternatives-capped')
     return first, frozenset(obs)
+
+
+def _main(argv):
+    """python3 -m vlib.cppref input.c                  print what the model expects
+       python3 -m vlib.cppref input.c STATUS out.txt   compare with a `cproc-qbe -E` run; exit 1 when they disagree"""
+    src = open(argv[0], 'rb').read()
+    o, al = allowed(src)
+    if len(argv) < 3:
+        print(o.status, o.reason or '', sorted(o.flags))
+        for a in al:
+            print('reject' if a == 'reject' else render(a))
+        return 0
+    st = int(argv[1])
+    if o.status == 'undefined':
+        print('not judged:', o.reason)
+        return 0
+    got = 'reject' if st == 1 else relex(open(argv[2], 'rb').read()) if st == 0 else 'crash'
+    if got in al:
+        print('agrees with the reference model')
+        return 0
+    print('expected:', ' | '.join('reject (%s)' % o.reason if a == 'reject' else render(a) for a in al))
+    print('observed:', got if isinstance(got, str) else render(got), '(status %d)' % st)
+    return 1
+
+
+if __name__ == '__main__':
+    import sys
+    sys.exit(_main(sys.argv[1:]))
